@@ -735,8 +735,11 @@ RULE = ("A: offset queries (1-4 byte offsets on character boundaries, duplicates
         "more than one character (A), more than two (B), every program (C)")
 TRUSTED = ["Coq 8.16.1 kernel incl. vm_compute (no native_compute)",
            "no axioms (all C17 theorems closed under the global context)",
-           "hand transliteration of location.rs offset_to_location, trace/mod.rs print_code_location and the "
-           "ImportSyntaxError branch of write_trace, event.rs Sink (leaves only), lex.rs loop; tie = differential run",
+           "translator/gens/locmap.py: statement-by-statement translation of location.rs offset_to_location, trace/mod.rs "
+           "print_code_location, JsFormat line/column arguments and the ImportSyntaxError branch of write_trace into "
+           "Gen/GenLoc.v (proved equal to the hand model for all inputs; prelude = models of the Rust library calls; casts "
+           "are the identity, usize `-` is N.sub); the translated mapper is also run against the code",
+           "hand transliteration of event.rs Sink (leaves only) and the lex.rs loop; tie = differential run",
            "jrharness lex/rowan/spans/loc/eval, the Debug rendering of Expr used to collect spans, vlib generators, "
            "Coq term printer/parser",
            "modelled not verified: logos' generated automaton and the text-block scanner (contract [matcher_ok] is "
